@@ -55,6 +55,7 @@ KNOWN_FOR_TARGET = 'for-target-killed-on-zero-iterations'
 KNOWN_CHAIN_EQ = 'chained-equality-under-equality-operators-evaluates-middle-operand-twice'
 KNOWN_LAMBDA = 'lambda-closure-variable-not-kept-live'
 KNOWN_LISTS_AUG = 'lists-augassign-subscript-operator-missing'
+KNOWN_DICT_KW = 'call-kwargs-unpacking-with-rebound-dict'
 
 
 def generate():
@@ -144,6 +145,19 @@ def is_lambda_closure_finding(src):
             if free & assigned_in_bodies:
                 return True
     return False
+
+
+def is_dict_kwargs_finding(src, b):
+    """the function rebinds the name `dict` and contains a call with ** arguments, and the converted function
+    raised TypeError (dict(**kw) found the user's value)"""
+    import ast
+    if not (b and b[0][0] == 'raise' and b[0][1] == 'TypeError'):
+        return False
+    tree = ast.parse(src)
+    rebinds = any((isinstance(n, ast.Name) and n.id == 'dict' and isinstance(n.ctx, ast.Store)) or
+                  (isinstance(n, ast.arg) and n.arg == 'dict') for n in ast.walk(tree))
+    unpacks = any(isinstance(n, ast.Call) and any(k.arg is None for k in n.keywords) for n in ast.walk(tree))
+    return rebinds and unpacks
 
 
 def is_lists_aug_finding(src, feats, b):
@@ -831,6 +845,8 @@ def check(run):
                             run.violation(d, {}, classify=KNOWN_FOR_TARGET)
                         elif is_lists_aug_finding(src, feats, b):
                             run.violation(d, {}, classify=KNOWN_LISTS_AUG)
+                        elif is_dict_kwargs_finding(src, b):
+                            run.violation(d, {}, classify=KNOWN_DICT_KW)
                         elif is_chained_equality_finding(src, feats, a, b):
                             run.violation(d, {}, classify=KNOWN_CHAIN_EQ)
                         elif is_lambda_closure_finding(src):
